@@ -683,30 +683,6 @@ static void partHist(vh::Reporter& rep, const vh::Args&) {
                     rep.violation(key, what + " (well " + W.name + ", report step " + std::to_string(st) + ")", wit.str()); bad = true;
                 };
                 if (obs.size() != W.conns.size()) { fail("history:connection-count", "number of connections differs from the model"); continue; }
-                // (1) every connection against the model, matched by cell (the list is kept in COMPORD order, not insert order)
-                for (const RConn& c : W.conns) {
-                    auto it = std::find_if(obs.begin(), obs.end(), [&](const Obs& o) { return o.i == c.i && o.j == c.j && o.k == c.k; });
-                    if (it == obs.end()) { fail("history:connection-missing", "a connection of the model is not in the well"); break; }
-                    rep.count("connection_state_checks");
-                    const std::string cls = ":after-" + c.lastOp;
-                    if (it->complnum != c.complnum) { fail("history:complnum" + cls, "completion number differs from the model"); break; }
-                    if (it->sortv != c.sortv) { fail("history:insert-index" + cls, "insert index (sort value) differs from the model"); break; }
-                    if (it->open != c.open) { fail("history:state" + cls, "connection state differs from the model"); break; }
-                    if (it->dir != c.dir) { fail("history:direction" + cls, "direction differs from the model"); break; }
-                    rep.maxof("max_rel_err_wpimult", rel(it->wpimult, c.mult));
-                    if (!(rel(it->wpimult, c.mult) <= 1e-12)) { fail("history:wpimult-product" + cls, "accumulated WPIMULT factor differs from the model"); break; }
-                    rep.maxof("max_rel_err_history_CF", rel(it->CF, c.ref.CF * c.mult));
-                    if (!(rel(it->CF, c.ref.CF * c.mult) <= TOL_RELATION)) { fail("history:CF" + cls, "CF is not (COMPDAT value) x (WPIMULT factors)"); break; }
-                    if (!(rel(it->Kh, c.ref.Kh) <= TOL_RELATION) || !(rel(it->r0, c.ref.r0) <= TOL_RELATION) || !(rel(it->rw, c.ref.rw) <= TOL_RELATION)
-                        || !(rel(it->skin, c.ref.skin) <= TOL_STORED)) {
-                        fail("history:Kh-r0-rw-skin" + cls, "Kh, r0, rw or skin differ from the last COMPDAT of the cell"); break;
-                    }
-                    // the relation survives the history once the WPIMULT factors are taken out
-                    const double lhs = it->CF / it->wpimult * (std::log(it->r0 / it->rw) + it->skin), rhs = TWO_PI * it->Kh;
-                    rep.count("relation_checks"); rep.maxof("max_rel_err_relation", std::fabs(lhs - rhs) / rhs);
-                    if (!(std::fabs(lhs - rhs) <= TOL_RELATION * rhs)) { fail("history:peaceman-relation" + cls, "CF/wpimult (ln(r0/rw)+S) != 2 pi Kh"); break; }
-                }
-                if (bad) continue;
                 if (st > 0) {
                     // (2) connections no keyword of this step selected: bit for bit as in the previous report step
                     const auto& pv = prev[W.name];
@@ -732,6 +708,31 @@ static void partHist(vh::Reporter& rep, const vh::Args&) {
                         if (a != b) { fail("history:order:" + W.order, "relative order of the existing connections changed"); continue; }
                     }
                 }
+                if (bad) continue;
+                // (1) every connection against the model, matched by cell (the list is kept in COMPORD order, not insert order)
+                for (const RConn& c : W.conns) {
+                    auto it = std::find_if(obs.begin(), obs.end(), [&](const Obs& o) { return o.i == c.i && o.j == c.j && o.k == c.k; });
+                    if (it == obs.end()) { fail("history:connection-missing", "a connection of the model is not in the well"); break; }
+                    rep.count("connection_state_checks");
+                    const std::string cls = ":after-" + c.lastOp;
+                    if (it->complnum != c.complnum) { fail("history:complnum" + cls, "completion number differs from the model"); break; }
+                    if (it->sortv != c.sortv) { fail("history:insert-index" + cls, "insert index (sort value) differs from the model"); break; }
+                    if (it->open != c.open) { fail("history:state" + cls, "connection state differs from the model"); break; }
+                    if (it->dir != c.dir) { fail("history:direction" + cls, "direction differs from the model"); break; }
+                    rep.maxof("max_rel_err_wpimult", rel(it->wpimult, c.mult));
+                    if (!(rel(it->wpimult, c.mult) <= 1e-12)) { fail("history:wpimult-product" + cls, "accumulated WPIMULT factor differs from the model"); break; }
+                    rep.maxof("max_rel_err_history_CF", rel(it->CF, c.ref.CF * c.mult));
+                    if (!(rel(it->CF, c.ref.CF * c.mult) <= TOL_RELATION)) { fail("history:CF" + cls, "CF is not (COMPDAT value) x (WPIMULT factors)"); break; }
+                    if (!(rel(it->Kh, c.ref.Kh) <= TOL_RELATION) || !(rel(it->r0, c.ref.r0) <= TOL_RELATION) || !(rel(it->rw, c.ref.rw) <= TOL_RELATION)
+                        || !(rel(it->skin, c.ref.skin) <= TOL_STORED)) {
+                        fail("history:Kh-r0-rw-skin" + cls, "Kh, r0, rw or skin differ from the last COMPDAT of the cell"); break;
+                    }
+                    // the relation survives the history once the WPIMULT factors are taken out
+                    const double lhs = it->CF / it->wpimult * (std::log(it->r0 / it->rw) + it->skin), rhs = TWO_PI * it->Kh;
+                    rep.count("relation_checks"); rep.maxof("max_rel_err_relation", std::fabs(lhs - rhs) / rhs);
+                    if (!(std::fabs(lhs - rhs) <= TOL_RELATION * rhs)) { fail("history:peaceman-relation" + cls, "CF/wpimult (ln(r0/rw)+S) != 2 pi Kh"); break; }
+                }
+                if (bad) continue;
                 prev[W.name] = obs;
             }
         }
